@@ -446,8 +446,8 @@ pub fn iso() -> IsoCheck<Case> {
     IsoCheck {
         name: "honoured-or-refused",
         strategy: Some(Arc::new(|_ctx: &Ctx| case())),
-        quick: 400,
-        thorough: 6_000,
+        quick: 2_000,
+        thorough: 30_000,
         fixed: Arc::new(fixed),
         eval: Arc::new(eval),
         stack: 8 << 20,
